@@ -866,6 +866,9 @@ fn run_case(c: &Case, rng: &mut Rng, out: &mut Out, thorough: bool, fixed: Optio
         bounds.push(bytes.len());
         bounds.sort();
         bounds.dedup();
+        // (the layout is computed from what was APPENDED; when the file on disk is shorter — a changed
+        // rotator — the harness must report that through the oracles, not panic while slicing)
+        bounds.retain(|p| *p <= bytes.len());
         for (pos, width, is_len) in fields {
             if pos + width > bytes.len() {
                 continue;
@@ -1198,7 +1201,7 @@ pub fn run(a: &Args) {
                         out.violation("C10:intact:long-history", "recovery of an undamaged long history did not return every appended entry in order", json!({"entries": n, "max_file_size": max, "recovered": rec.map(|r| r.len())}));
                     }
                     // the last file cut in its last entry: everything before it comes back
-                    if let Some((name, bytes)) = img.last() {
+                    if let Some((name, bytes)) = img.last().filter(|(_, b)| !b.is_empty()) {
                         store.set_file_data(name, bytes[..bytes.len() - 1].to_vec());
                         let rec = recover(&rot);
                         out.op(format!("t {} {}", img.len() - 1, bytes.len() - 1), rec.as_ref().map(|r| show_entries(r)).unwrap_or("crash".into()));
